@@ -366,6 +366,73 @@ Proof.
   intros j. rewrite C'. apply C.
 Qed.
 
+(* moving id k of store si from "pending" to "done" when its object (if any) is read-only *)
+Lemma M_shift E st si k dn ks :
+  M E st si dn (k :: ks) ->
+  (forall s o, nth_error (st_stores st) si = Some s -> alookup k (s_objs s) = Some o ->
+               s_cls s = Local -> o_mode o = mode_ro) ->
+  M E st si (k :: dn) ks.
+Proof.
+  intros HM Hk j s k' o Hs Ho Hc.
+  destruct (Nat.eq_dec j si) as [->|Hj].
+  - destruct (list_N_eqb k' k) eqn:Ek.
+    + apply list_N_eqb_spec in Ek. subst k'. left. now apply (Hk s o).
+    + assert (Hne : k' <> k) by (intros ->; rewrite list_N_eqb_refl in Ek; discriminate).
+      destruct (HM si s k' o Hs Ho Hc) as [?|[[A B]|[_ [Heq|Hin]]]].
+      * now left.
+      * right. left. split; [exact A|]. intros [_ [Heq|Hin]]; [now apply Hne|now apply B].
+      * exfalso. now apply Hne.
+      * right. right. now split.
+  - destruct (HM j s k' o Hs Ho Hc) as [?|[[A B]|[? _]]]; [now left| |contradiction].
+    right. left. split; [exact A|]. intros [? _]. contradiction.
+Qed.
+
+Lemma del_obj_absent st si k s : nth_error (st_stores (del_obj st si k)) si = Some s -> alookup k (s_objs s) = None.
+Proof.
+  unfold del_obj. simpl. rewrite nth_error_upd_nth, Nat.eqb_refl.
+  destruct (nth_error (st_stores st) si) as [s0|]; [|discriminate]. simpl. intros [= <-]. simpl.
+  rewrite alookup_aremove, list_N_eqb_refl. reflexivity.
+Qed.
+
+Lemma verify_one_alg st si k j : alg_at (verify_one H st si k) j = alg_at st j.
+Proof.
+  unfold verify_one. destruct (get_store st si) as [s|]; [|reflexivity].
+  destruct (alookup k (s_objs s)); [|reflexivity].
+  destruct (list_N_eqb _ _); [apply protect_one_alg|apply del_obj_alg].
+Qed.
+
+Lemma verify_one_Names st si k : Names st -> Names (verify_one H st si k).
+Proof.
+  intros HN. unfold verify_one. destruct (get_store st si) as [s|]; [|exact HN].
+  destruct (alookup k (s_objs s)); [|exact HN].
+  destruct (list_N_eqb _ _); [now apply protect_one_Names|now apply del_obj_Names].
+Qed.
+
+Lemma verify_one_M E st si k dn ks : M E st si dn (k :: ks) -> M E (verify_one H st si k) si (k :: dn) ks.
+Proof.
+  intros HM. unfold verify_one. rewrite get_store_nth.
+  destruct (nth_error (st_stores st) si) as [s|] eqn:Es.
+  2:{ apply M_shift; [exact HM|]. intros s o Hs. congruence. }
+  destruct (alookup k (s_objs s)) as [o|] eqn:Eo.
+  2:{ apply M_shift; [exact HM|]. intros s' o Hs Ho. congruence. }
+  destruct (list_N_eqb _ _); [now apply protect_one_M|].
+  apply M_shift; [now apply del_obj_M|]. intros s' o' Hs Ho. rewrite (del_obj_absent _ _ _ _ Hs) in Ho. discriminate.
+Qed.
+
+Lemma verify_fold E st si (ks dn : list oid) :
+  Names st -> M E st si dn ks ->
+  Names (fold_left (fun s k => verify_one H s si k) ks st) /\
+  M E (fold_left (fun s k => verify_one H s si k) ks st) si (rev ks ++ dn) [] /\
+  forall j, alg_at (fold_left (fun s k => verify_one H s si k) ks st) j = alg_at st j.
+Proof.
+  revert st dn. induction ks as [|k r IH]; intros st dn HN HM; simpl.
+  - auto.
+  - destruct (IH (verify_one H st si k) (k :: dn)) as (A & B & C).
+    + now apply verify_one_Names.
+    + now apply verify_one_M.
+    + split; [exact A|]. split; [now rewrite <- app_assoc|]. intros j. rewrite C. apply verify_one_alg.
+Qed.
+
 (* ------------------------------------------------------------------ add *)
 Definition item_ok (st : state) (si : nat) (k : oid) (b : list N) : Prop :=
   forall a, alg_at st si = Some a -> named_ok a k b.
@@ -484,6 +551,39 @@ Proof.
   split; [exact A'|]. split; [now apply M_done_lminus|]. intros j. rewrite C'. apply C.
 Qed.
 
+Lemma fold_verify_map {A} (f : A -> oid) st si (items : list A) :
+  fold_left (fun s it => verify_one H s si (f it)) items st =
+  fold_left (fun s k => verify_one H s si k) (map f items) st.
+Proof. revert st. induction items; intros; simpl; auto. Qed.
+
+Lemma add_copy_v_ok E st si items :
+  (forall it, In it items -> item_ok st si (fst it) (snd it)) ->
+  Names st -> M E st O [] [] ->
+  Names (add_copy_v H st si items) /\ M (lminus E si (map fst items)) (add_copy_v H st si items) O [] [] /\
+  forall j, alg_at (add_copy_v H st si items) j = alg_at st j.
+Proof.
+  intros Hit HN HM. unfold add_copy_v.
+  assert (Hgen : forall l st0, incl l items ->
+            (forall j, alg_at st0 j = alg_at st j) ->
+            Names st0 -> M E st0 si [] (map fst items) ->
+            let st1 := fold_left (fun s it => put_new s si (fst it) (snd it)) l st0 in
+            Names st1 /\ M E st1 si [] (map fst items) /\ forall j, alg_at st1 j = alg_at st j).
+  { induction l as [|it r IH]; intros st0 Hl Ha HN0 HM0; simpl.
+    - auto.
+    - apply IH.
+      + intros x Hx. apply Hl. now right.
+      + intros j. rewrite put_new_eq, put_obj_alg. apply Ha.
+      + rewrite put_new_eq. apply put_obj_Names; [|exact HN0]. simpl.
+        intros a Hal. rewrite Ha in Hal. apply (Hit it); [apply Hl; now left|exact Hal].
+      + rewrite put_new_eq. apply put_obj_M; [|exact HM0].
+        apply in_map. apply Hl. now left. }
+  destruct (Hgen items st (incl_refl _) (fun j => eq_refl) HN
+              (M_pending E st si _ (M_nil_any E st O si HM))) as (A & B & C).
+  rewrite fold_verify_map.
+  destruct (verify_fold E _ si (map fst items) [] A B) as (A' & B' & C').
+  split; [exact A'|]. split; [now apply M_done_lminus|]. intros j. rewrite C'. apply C.
+Qed.
+
 (* the three facts every operation preserves, bundled *)
 Definition Good (E : lset) (st0 st : state) : Prop :=
   Names st /\ M E st O [] [] /\ forall j, alg_at st j = alg_at st0 j.
@@ -526,6 +626,28 @@ Proof.
   - apply add_copy_Good; [|exact HG]. intros x [<-|[]]. apply Hit. now left.
 Qed.
 
+Lemma add_new_Good E vf st0 st si items :
+  (forall it, In it items -> item_ok st0 si (fst it) (snd it)) ->
+  Good E st0 st -> Good E st0 (add_new H vf st si items).
+Proof.
+  intros Hit HG. unfold add_new. destruct vf; [|now apply add_copy_Good].
+  destruct HG as (HN & HM & HA).
+  destruct (add_copy_v_ok E st si items) as (A & B & C); auto.
+  - intros it Hin a Hal. rewrite HA in Hal. now apply (Hit it).
+  - split; [exact A|]. split; [|intros j; rewrite C; apply HA].
+    eapply M_weaken; [|exact B]. intros j k. apply lminus_sub.
+Qed.
+
+Lemma add_new_fold_Good E vf st0 st si (l : list (oid * list N)) :
+  (forall it, In it l -> item_ok st0 si (fst it) (snd it)) ->
+  Good E st0 st -> Good E st0 (fold_left (fun s it => add_new H vf s si [it]) l st).
+Proof.
+  revert st. induction l as [|it r IH]; intros st Hit HG; simpl; [exact HG|].
+  apply IH.
+  - intros x Hx. apply Hit. now right.
+  - apply add_new_Good; [|exact HG]. intros x [<-|[]]. apply Hit. now left.
+Qed.
+
 Lemma check_all_Good E st0 st si ks : Good E st0 st -> Good E st0 (check_all H st si ks).
 Proof.
   intros (A & B & C). destruct (check_all_ok E st si ks A B) as (A' & B' & C').
@@ -540,8 +662,8 @@ Proof.
   destruct Hk as [[= <- <-]|[]]. exact E.
 Qed.
 
-Lemma transfer_plan_src a src st dst all fs ds :
-  transfer_plan a src st dst all = inl (fs, ds) ->
+Lemma transfer_plan_src a src vf st dst all fs ds :
+  transfer_plan H a src vf st dst all = inl (fs, ds) ->
   forall it, In it (fs ++ ds) -> src (fst it) = Some (snd it).
 Proof.
   unfold transfer_plan. intros Hp it Hin.
@@ -550,9 +672,9 @@ Proof.
   apply in_app_or in Hin as [Hin|Hin]; eapply items_of_src; exact Hin.
 Qed.
 
-Lemma transfer_core_Good E a srcf sidx st0 st dst ids sh :
+Lemma transfer_core_Good E a srcf sidx vf st0 st dst ids sh :
   (forall st', Good E st0 st' -> forall k b, srcf st' k = Some b -> item_ok st0 dst k b) ->
-  Good E st0 st -> Good E st0 (fst (transfer_core H a srcf sidx st dst ids sh)).
+  Good E st0 st -> Good E st0 (fst (transfer_core H a srcf sidx vf st dst ids sh)).
 Proof.
   intros Hsrc HG. unfold transfer_core.
   destruct (expand a (srcf st) ids sh) as [all|c]; simpl; [|exact HG].
@@ -561,11 +683,12 @@ Proof.
   set (st2 := match sidx with Some i => check_all H (check_all H st dst all) i all | None => check_all H st dst all end).
   assert (HG2 : Good E st0 st2).
   { subst st2. destruct sidx; [now apply check_all_Good|exact HG1]. }
-  destruct (transfer_plan a (srcf st2) st2 dst all) as [[fs ds]|c] eqn:Ep; simpl; [|exact HG2].
-  pose proof (transfer_plan_src _ _ _ _ _ _ _ Ep) as Hs.
-  unfold apply_plan. simpl. apply add_copy_fold_Good.
+  match goal with |- context[transfer_plan H a (srcf st2) ?v st2 dst all] => set (vfa := v) end.
+  destruct (transfer_plan H a (srcf st2) vfa st2 dst all) as [[fs ds]|c] eqn:Ep; simpl; [|exact HG2].
+  pose proof (transfer_plan_src _ _ _ _ _ _ _ _ Ep) as Hs.
+  unfold apply_plan. simpl. apply add_new_fold_Good.
   - intros it Hin. apply (Hsrc st2 HG2). apply Hs. apply in_or_app. now right.
-  - destruct fs as [|f fr]; [exact HG2|]. apply add_copy_Good; [|exact HG2].
+  - destruct fs as [|f fr]; [exact HG2|]. apply add_new_Good; [|exact HG2].
     intros it Hin. apply (Hsrc st2 HG2). apply Hs. apply in_or_app. now left.
 Qed.
 
@@ -659,9 +782,9 @@ Proof.
   rewrite <- (Hw s0 d0 Es0 Ed0), <- Hsrc. exact Hn.
 Qed.
 
-Lemma transfer_op_Good E st src dst ids sh :
+Lemma transfer_op_Good E st src dst ids sh vf :
   (forall s d, get_store st src = Some s -> get_store st dst = Some d -> s_alg s = s_alg d) ->
-  Names st -> M E st O [] [] -> Good E st (fst (transfer_op H st src dst ids sh)).
+  Names st -> M E st O [] [] -> Good E st (fst (transfer_op H st src dst ids sh vf)).
 Proof.
   intros Hw HN HM. unfold transfer_op.
   destruct (get_store st src) as [s|] eqn:Es; [|now apply Good_refl].
@@ -756,6 +879,139 @@ Proof.
     destruct (nth_error (st_stores st) j); reflexivity.
 Qed.
 
+(* ------------------------------------------------------------------ verifying transfers *)
+(* What verification (HashFileDB.check) compares: the digest of the bytes against the id, both cut
+   at the first "." (actual.value.split(".")[0] != oid.split(".")[0]). *)
+Definition stem_ok (a : alg) (k : oid) (b : list N) : Prop := stem (H a b) = stem k.
+
+(* every object of store j is filed under (the stem of) its digest, except the ids [ks] that a
+   verifying add has copied and not yet verified *)
+Definition StemP (st : state) (j : nat) (ks : list oid) : Prop :=
+  forall s k o, nth_error (st_stores st) j = Some s -> alookup k (s_objs s) = Some o ->
+    stem_ok (s_alg s) k (o_bytes o) \/ In k ks.
+
+Lemma chmod_all_Stem i m st j ks : StemP st j ks -> StemP (chmod_all i m st) j ks.
+Proof.
+  intros HS s k o Hs Ho. rewrite chmod_all_nth in Hs.
+  destruct (nth_error (st_stores st) j) as [s0|] eqn:E0; [|discriminate].
+  injection Hs as <-. rewrite chmod_store_lookup in Ho.
+  destruct (alookup k (s_objs s0)) as [o0|] eqn:E1; [|discriminate].
+  injection Ho as <-. rewrite chmod_obj_bytes. simpl. apply (HS s0 k o0 E0 E1).
+Qed.
+
+Lemma del_obj_Stem st si k j ks : StemP st j ks -> StemP (del_obj st si k) j ks.
+Proof.
+  intros HS s k' o Hs Ho. destruct (del_obj_sub _ _ _ _ _ _ _ Hs Ho) as (s0 & A & B & C & _).
+  rewrite <- C. apply (HS s0 k' o A B).
+Qed.
+
+Lemma protect_one_Stem st si k j ks : StemP st j ks -> StemP (protect_one st si k) j ks.
+Proof.
+  intros HS. unfold protect_one. destruct (get_store st si) as [s|]; [|exact HS].
+  destruct (s_cls s); [|exact HS].
+  destruct (alookup k (s_objs s)); [now apply chmod_all_Stem|exact HS].
+Qed.
+
+Lemma check_obj_Stem st si k j ks : StemP st j ks -> StemP (check_obj H st si k) j ks.
+Proof.
+  intros HS. unfold check_obj. destruct (get_store st si) as [s|]; [|exact HS].
+  destruct (s_cls s); [|exact HS].
+  destruct (alookup k (s_objs s)) as [o|]; [|exact HS].
+  destruct (o_mode o =? mode_ro); [exact HS|].
+  destruct (list_N_eqb _ _); [now apply chmod_all_Stem|now apply del_obj_Stem].
+Qed.
+
+Lemma check_all_Stem st si l j ks : StemP st j ks -> StemP (check_all H st si l) j ks.
+Proof.
+  unfold check_all. revert st. induction l as [|k r IH]; intros st HS; simpl; [exact HS|].
+  apply IH. now apply check_obj_Stem.
+Qed.
+
+Lemma put_new_Stem st j k b ks : In k ks -> StemP st j ks -> StemP (put_new st j k b) j ks.
+Proof.
+  intros Hin HS s k' o Hs Ho. rewrite put_new_eq in Hs. unfold put_obj in Hs. simpl in Hs.
+  rewrite nth_error_upd_nth, Nat.eqb_refl in Hs.
+  destruct (nth_error (st_stores st) j) as [s0|] eqn:E0; [|discriminate].
+  simpl in Hs. injection Hs as <-. simpl in Ho. rewrite alookup_aput in Ho. simpl.
+  destruct (list_N_eqb k' k) eqn:Ek.
+  - apply list_N_eqb_spec in Ek. subst k'. now right.
+  - apply (HS s0 k' o E0 Ho).
+Qed.
+
+(* verifying id k of store j: afterwards it is either gone or filed under its digest *)
+Lemma verify_one_Stem st j k ks : StemP st j (k :: ks) -> StemP (verify_one H st j k) j ks.
+Proof.
+  intros HS.
+  assert (Hother : forall st', StemP st' j (k :: ks) ->
+            (forall s o, nth_error (st_stores st') j = Some s -> alookup k (s_objs s) = Some o ->
+                         stem_ok (s_alg s) k (o_bytes o)) -> StemP st' j ks).
+  { intros st' HS' Hk s k' o Hs Ho. destruct (list_N_eqb k' k) eqn:Ek.
+    - apply list_N_eqb_spec in Ek. subst k'. left. now apply (Hk s o).
+    - destruct (HS' s k' o Hs Ho) as [?|[Heq|Hin]]; [now left| |now right].
+      subst k'. rewrite list_N_eqb_refl in Ek. discriminate. }
+  unfold verify_one. rewrite get_store_nth.
+  destruct (nth_error (st_stores st) j) as [s|] eqn:Es.
+  2:{ apply Hother; [exact HS|]. intros s o Hs. congruence. }
+  destruct (alookup k (s_objs s)) as [o|] eqn:Eo.
+  2:{ apply Hother; [exact HS|]. intros s' o Hs Ho. congruence. }
+  destruct (list_N_eqb (stem (H (s_alg s) (o_bytes o))) (stem k)) eqn:Em.
+  - apply list_N_eqb_spec in Em. apply Hother; [now apply protect_one_Stem|].
+    intros s' o' Hs Ho.
+    unfold protect_one in Hs, Ho. rewrite get_store_nth, Es in Hs.
+    destruct (s_cls s).
+    + rewrite Eo in Hs. rewrite chmod_all_nth, Es in Hs. simpl in Hs. injection Hs as <-.
+      rewrite chmod_store_lookup, Eo in Ho. simpl in Ho. injection Ho as <-.
+      unfold stem_ok. rewrite chmod_obj_bytes. simpl. exact Em.
+    + rewrite Es in Hs. injection Hs as <-. rewrite Eo in Ho. injection Ho as <-. exact Em.
+  - apply Hother; [now apply del_obj_Stem|].
+    intros s' o' Hs Ho. rewrite (del_obj_absent _ _ _ _ Hs) in Ho. discriminate.
+Qed.
+
+Lemma add_copy_v_Stem st j items : StemP st j [] -> StemP (add_copy_v H st j items) j [].
+Proof.
+  intros HS. unfold add_copy_v.
+  assert (Hput : forall l st0, incl l items -> StemP st0 j (map fst items) ->
+            StemP (fold_left (fun s it => put_new s j (fst it) (snd it)) l st0) j (map fst items)).
+  { induction l as [|it r IH]; intros st0 Hl HS0; simpl; [exact HS0|].
+    apply IH; [intros x Hx; apply Hl; now right|].
+    apply put_new_Stem; [|exact HS0]. apply in_map. apply Hl. now left. }
+  assert (Hver : forall ks st0, StemP st0 j ks ->
+            StemP (fold_left (fun s k => verify_one H s j k) ks st0) j []).
+  { induction ks as [|k r IH]; intros st0 HS0; simpl; [exact HS0|].
+    apply IH. now apply verify_one_Stem. }
+  rewrite fold_verify_map. apply Hver. apply Hput; [apply incl_refl|].
+  intros s k o Hs Ho. destruct (HS s k o Hs Ho) as [?|[]]. now left.
+Qed.
+
+Lemma apply_plan_v_Stem st j p : StemP st j [] -> StemP (apply_plan H true st j p) j [].
+Proof.
+  intros HS. unfold apply_plan, add_new.
+  assert (H1 : StemP (match fst p with [] => st | _ => add_copy_v H st j (fst p) end) j []).
+  { destruct (fst p); [exact HS|now apply add_copy_v_Stem]. }
+  revert H1. generalize (match fst p with [] => st | _ => add_copy_v H st j (fst p) end).
+  induction (snd p) as [|it r IH]; intros st1 H1; simpl; [exact H1|].
+  apply IH. now apply add_copy_v_Stem.
+Qed.
+
+(* C01 for verifying transfers, from ANY source - rotten, misnamed, of another algorithm: a
+   transfer with verify=True never leaves the destination holding an object whose digest (stem)
+   is not its name.  No WfOp, no invariant of the source, no hypothesis on the digest. *)
+Theorem C01_verifying_transfer_partial st src dst ids sh :
+  StemP st dst [] -> StemP (step H st (OTransfer src dst ids sh true)) dst [].
+Proof.
+  intros HS. unfold step. simpl. unfold transfer_op.
+  destruct (get_store st src) as [s|]; [|exact HS].
+  destruct (get_store st dst) as [d|]; [|exact HS].
+  destruct (Nat.eqb src dst); [exact HS|].
+  unfold transfer_core.
+  destruct (expand _ _ _ _) as [all|c]; simpl; [|exact HS].
+  pose proof (check_all_Stem st dst all dst [] HS) as H1.
+  destruct (filter _ all) as [|m ms]; simpl; [exact H1|].
+  pose proof (check_all_Stem _ src all dst [] H1) as H2.
+  destruct (transfer_plan _ _ _ _ _ _ _) as [p|c]; simpl; [|exact H2].
+  now apply apply_plan_v_Stem.
+Qed.
+
 (* ------------------------------------------------------------------ C01 *)
 (* what the caller owes: truthful ids, one algorithm per transfer, no directory staging under
    sha256 (the legacy external-output path) *)
@@ -767,13 +1023,14 @@ Definition WfOp (st : state) (o : op) : Prop :=
       | WFile _ => True
       end
   | OAdd si b k => forall s, get_store st si = Some s -> named_ok (s_alg s) k b
-  | OTransfer src dst _ _ =>
+  | OTransfer src dst _ _ _ =>
       forall s d, get_store st src = Some s -> get_store st dst = Some d -> s_alg s = s_alg d
   | OSaveIndex si dirs files =>
       forall s, get_store st si = Some s ->
         (forall f, In f files -> snd f = H (s_alg s) (snd (fst f))) /\ (dirs <> [] -> s_alg s <> Sha256)
   | OMigrate _ _ _ _ => True
   | OReopen _ _ => True
+  | ORot _ _ _ => False        (* not an operation of dvc-data; see C01_verifying_transfer_partial *)
   end.
 
 (* the leftovers after an operation: reopening a directory under the local class adds what is
@@ -797,6 +1054,7 @@ Proof.
   - now apply save_index_Good.
   - now apply migrate_op_Good.
   - now apply reopen_Good.
+  - contradiction.
 Qed.
 
 Theorem C01_init cfg : Inv (init_state cfg).
@@ -856,7 +1114,7 @@ Qed.
 
 Lemma wf_op_b_sound st o : wf_op_b H st o = true -> WfOp st o.
 Proof.
-  destruct o as [si w|si w|si b k|src dst ids sh|si dirs files|src dst order hard|si c]; simpl.
+  destruct o as [si w|si w|si b k|src dst ids sh vf|si dirs files|src dst order hard|si c|si k b]; simpl.
   - destruct w; [trivial|]. intros E s Hs. rewrite Hs in E.
     intros Ha. rewrite Ha in E. discriminate.
   - destruct w; [trivial|]. intros E s Hs. rewrite Hs in E.
@@ -868,6 +1126,7 @@ Proof.
     + intros Hd Ha. destruct dirs; [now apply Hd|]. rewrite Ha in E2. discriminate.
   - trivial.
   - trivial.
+  - discriminate.
 Qed.
 
 (* the boolean violation test is sound *)
